@@ -8,6 +8,9 @@ an empty repository, `gcPass` = `mem.gc` / `dir.gc`, as repaired by
 * `patches/F5-gc-empty-repo-stops-at-first-failure.diff` — the bottom-up removal of an empty repository stops at the
   first entry it cannot remove (before: it went on and removed `index.json` and `oci-layout` of a repository that still
   holds blobs);
+* `patches/F5-gc-pruned-layout-clears-exists.diff` — a repository whose `oci-layout` has been removed is marked as not
+  existing even if a foreign file keeps its directory (before: `exists` stayed true and the next push wrote
+  `index.json` without `oci-layout`);
 * `patches/F7-gc-empty-repo-any-algorithm.diff` — every algorithm directory under `blobs/` is removed, not only
   `sha256` and `sha512`;
 * `patches/F6-gc-pass-continues-after-error.diff` — the pass goes on after a repository whose collection fails.
@@ -92,13 +95,13 @@ def rmSeq : List (DirRepo → Bool × DirRepo) → DirRepo → Bool × DirRepo
     | (true, r') => rmSeq fs r'
     | (false, r') => (false, r')
 
-/-- `prune an empty repo dir and mark the repo as empty if successful` -/
+/-- `prune an empty repo dir and mark the repo as empty`: if everything could be removed, or if at least `oci-layout` is
+    gone (something foreign keeps the directory), the repository does not exist any more — the next push initialises it -/
 def pruneEmpty (r : DirRepo) : DirRepo :=
   if !r.repoDir then { r with live := false }   -- every removal reports `fs.ErrNotExist`
   else
-    match rmSeq ([rmUploads] ++ r.algos.map rmAlgo ++ [rmBlobs, rmIndexFile, rmLayoutFile, rmRepoDir]) r with
-    | (true, r') => { r' with live := false }
-    | (false, r') => r'
+    let res := rmSeq ([rmUploads] ++ r.algos.map rmAlgo ++ [rmBlobs, rmIndexFile, rmLayoutFile, rmRepoDir]) r
+    if res.1 || !res.2.layoutFile then { res.2 with live := false } else res.2
 
 /-- `attempt to remove an empty upload folder` -/
 def dirStep1 (r : DirRepo) : DirRepo := if r.sessions = 0 then (rmUploads r).2 else r
